@@ -351,8 +351,34 @@ impl Ctx {
             return;
         }
         if let Some(w) = prop_c08(base, input) {
-            self.rep.failures.push((join_case(base, input), w));
-            return;
+            // prop_c08 compares the text in front of the path; for a base without authority the '/.' marker
+            // (inserted or removed by with_query_and_fragment) is part of that text although it carries no
+            // credentials, host or port: there the law is "scheme kept, still no authority" (C08_contain)
+            let marker_only = w.contains("changed the authority")
+                && !base.has_authority()
+                && matches!(std::panic::catch_unwind(std::panic::AssertUnwindSafe(|| base.join(input))),
+                            Ok(Ok(u)) if u.scheme() == base.scheme() && !u.has_authority() && u.host().is_none() && u.port().is_none() && u.username().is_empty() && u.password().is_none());
+            if !marker_only {
+                self.rep.failures.push((join_case(base, input), w));
+                return;
+            }
+        }
+        // '?q' without '#': the result has no fragment (query and fragment come from the reference only);
+        // '?q#f' / '#f': the fragment is the reference's
+        if !base.cannot_be_a_base() {
+            let t: String = input.trim_matches(|c: char| c <= ' ').chars().filter(|c| !matches!(c, '\t' | '\n' | '\r')).collect();
+            if t.starts_with('?') || t.is_empty() {
+                if let Ok(Ok(u)) = std::panic::catch_unwind(std::panic::AssertUnwindSafe(|| base.join(input))) {
+                    if !t.contains('#') && u.fragment().is_some() {
+                        self.rep.failures.push((join_case(base, input), format!("reference {:?} without '#' gives a URL with fragment {:?}", input, u.fragment())));
+                        return;
+                    }
+                    if t.is_empty() && u.query() != base.query() {
+                        self.rep.failures.push((join_case(base, input), format!("the empty reference changed the query to {:?}", u.query())));
+                        return;
+                    }
+                }
+            }
         }
         if base.cannot_be_a_base() {
             // the only reference a cannot-be-a-base URL accepts: '#f' replaces only the fragment
@@ -468,7 +494,7 @@ fn token_to_url(tok: &str) -> Option<Url> {
 fn run_streams(args: &Args, search: bool) -> Report {
     let dbg = if cfg!(debug_assertions) { "1" } else { "0" };
     let mut cx = Ctx { drv: Driver::spawn(&args.driver), rep: Report::new(), dbg, search };
-    let thorough = args.tier == "thorough" || search;
+    let thorough = args.tier == "thorough";
     let mut rng = Rng::new(args.seed);
     let pool = start_pool();
 
@@ -490,6 +516,11 @@ fn run_streams(args: &Args, search: bool) -> Report {
         }
     }
 
+    // a failing input among the differing requests is enough
+    if search && !cx.rep.failures.is_empty() {
+        cx.rep.failures.sort_by_key(|(c, _)| c.len());
+        return cx.rep;
+    }
     // corpus: "join <base hex> <reference hex>" | "rel <base hex> <target hex>"
     let corpus_dir = if search { "corpus".to_string() } else { args.file.clone() };
     if let Ok(txt) = std::fs::read_to_string(format!("{}/C08/cases.txt", corpus_dir)) {
@@ -557,8 +588,11 @@ fn run_streams(args: &Args, search: bool) -> Report {
         }
     }
     // (a4) + (b2) random
-    let n = if thorough { 400_000 } else { 30_000 };
+    let n = if thorough { 400_000 } else if search { 120_000 } else { 30_000 };
     for i in 0..n {
+        if search && cx.rep.failures.len() >= 5 {
+            break;
+        }
         let (bs, ts) = gen_pair(&mut rng);
         let (b, t) = match (Url::parse(&bs), Url::parse(&ts)) {
             (Ok(b), Ok(t)) => (b, t),
